@@ -11,13 +11,25 @@
 //            pre/post = <n> { <line> | :r <cond> <k> <line> } ; cond = :eq | :ne | :lt | :ge
 //            ":r c k A B" behaves as A in the runs of this test whose number (0,1,2,... = static counter in the test) satisfies c k, as B in
 //            the others; a conditional plugin line is reported only in the matching runs (static counter in the plugin).
+//            compound statements (builds with exceptions only):
+//              :t :<hk> <n> { inner } <m> { inner }          try { the n inner statements } catch (<hk>) { the m inner statements }
+//                                                            hk = :std (const std::exception&) | :int (int) | :unrel (const Unrelated&) | :all (...)
+//              :w :<ek> <file> <line> <n> { inner }          CHECK_THROWS(<ek>, helper()) with helper() = the n inner statements; ek = :std | :int | :unrel;
+//                                                            the macro takes __FILE__, __LINE__: (file, line) must be FILES[file]:(7000 + 16*file + ek)
+//              inner = :n | :c | :x <file> <line> | :j <file> <line> | :s | :o | :k :<kind> <agree> <file> <line>
+//            an executed inner statement is logged as a SUB event (test phase idx sub): sub counts the statements of the block from 0, those of
+//            the handler go on behind the block's
+//            optional suffix  :mac  = the tests are made by the PUBLIC MACROS: TEST_GROUP / TEST / IGNORE_TEST (tests without setup and teardown
+//            statements) and TEST_GROUP with TEST_SETUP / TEST_TEARDOWN (the others); an ignored test is an IGNORE_TEST.  The shells the macros
+//            define are taken from a fixed pool (at most MAC_RUN / MAC_IGN of each kind per scenario, else "skip"), relabelled (group, name,
+//            file, line) and put into the private registry in place of the hand-made shells.
 //            optional suffix  :io <sink> <sep> <verbose> <color> <cap>  = console mode: the run goes through CommandLineTestRunner and the REAL
 //            ConsoleTestOutput / stdio (no capture of PlatformSpecificFPuts), descriptor 1 redirected to a pipe (sink 1) or a regular file
 //            (sink 2), stdout fully buffered with a buffer of <cap> bytes, -p / -v / -c as given; afterwards the stream is flushed (as exit
 //            does) and the captured BYTES are read back.  Observation in that mode:
 //              :io <escaped> <ret|~> <n> { :f test file line kind | :s ok nfail|~ tests run checks ignored filtered }   (in file order)
 // Observation: <escaped> <ret|~> <nreps> { <nev> {test phase idx depth} <nfail> {test file line kind} <nafter> {depth ctx_ok}
-//              (~ | :s ok nfail|~ tests run checks ignored filtered) (~ | :k tests run checks fail filtered ignored) }
+//              (~ | :s ok nfail|~ tests run checks ignored filtered) (~ | :k tests run checks fail filtered ignored) <nsub> {test phase idx sub} }
 #include "hlib.h"
 #include <map>
 #include <stdexcept>
@@ -41,7 +53,7 @@ using namespace hl;
 
 extern int PlatformSpecificVerifJumpDepth();
 
-struct Base { char kind; int file; size_t line; int ck; bool agree; };
+struct Base { char kind; int file; size_t line; int ck; bool agree; int hk; std::vector<Base> blk, hd; };   // hk: 0 std, 1 int, 2 unrelated, 3 catch-all
 struct Cond { char op; unsigned long long k; };              // op 0 = unconditional, else 'e' == , 'n' != , 'l' < , 'g' >=
 static bool holds(const Cond& c, unsigned long long run)
 {
@@ -55,7 +67,7 @@ struct TestDef {
     std::string group, name;
     unsigned long long created, preCalls, postCalls;         // the static state the scripted test / the plugin keep across repetitions
 };
-struct Entry { char kind; int a, b, c, d; std::string text; };   // 'E' event, 'T' text chunk, 'A' after-test mark
+struct Entry { char kind; int a, b, c, d; std::string text; };   // 'E' event, 'T' text chunk, 'A' after-test mark, 'U' sub event
 static std::vector<Entry> gLog;
 static TestRegistry* gSepRegistry;       // -p: every test runs in a forked child, whose statics die with it; the number of the repetition is
                                          // then read from the registry (it lives in the runner's process and is copied by fork)
@@ -75,6 +87,11 @@ static void logText(const char* s)
 static void logEvent(int test, int phase, int idx)
 {
     Entry e; e.kind = 'E'; e.a = test; e.b = phase; e.c = idx; e.d = PlatformSpecificVerifJumpDepth(); gLog.push_back(e);
+}
+
+static void logSub(int test, int phase, int idx, int sub)
+{
+    Entry e; e.kind = 'U'; e.a = test; e.b = phase; e.c = idx; e.d = sub; gLog.push_back(e);
 }
 
 // ---------------------------------------------------------------- check kinds
@@ -151,6 +168,47 @@ static void doCheckK(int ck, bool agree, const char* file, size_t line)
     #undef PICK
 }
 
+// one simple statement (top level or inside a try block)
+static void execSimple(TestDef* d, int ph, int k, const Base& s)
+{
+    switch (s.kind) {
+    case 'n': break;
+    case 'c': UtestShell::getCurrent()->assertTrue(true, "CHECK", "true", NULLPTR, FILES[s.file], s.line); break;
+    case 'x': UtestShell::getCurrent()->fail(gMsg, FILES[s.file], s.line); break;
+    case 'j': FAIL_TEXT_C_LOCATION(gMsg, FILES[s.file], s.line); break;
+    case 'k': doCheckK(s.ck, s.agree, FILES[s.file], s.line); break;
+#if CPPUTEST_HAVE_EXCEPTIONS
+    case 's': throw std::runtime_error("boom");
+    case 'o': throw 42;
+#endif
+    default: fprintf(stderr, "harness: statement kind %c not available in this build\n", s.kind); exit(3);
+    }
+    (void)d; (void)ph; (void)k;
+}
+#if CPPUTEST_HAVE_EXCEPTIONS
+struct Unrelated { int x; };             // a class of the program's own: nothing that is thrown here is an instance of it
+// the statements of a try block / of a handler / of the helper inside CHECK_THROWS: each is logged, then executed
+static void execInner(TestDef* d, int ph, int k, int from, const std::vector<Base>& v)
+{
+    for (size_t j = 0; j < v.size(); j++) {
+        logSub(d->idx, ph, k, from + (int)j);
+        snprintf(gMsg, sizeof gMsg, "VM%d.%d.%d.%d", d->idx, ph, k, from + (int)j);
+        execSimple(d, ph, k, v[j]);
+    }
+}
+static void execThrows(TestDef* d, int ph, int k, const Base& s);
+static void execTry(TestDef* d, int ph, int k, const Base& s)
+{
+    const int n = (int)s.blk.size();
+    switch (s.hk) {
+    case 0: try { execInner(d, ph, k, 0, s.blk); } catch (const std::exception&) { execInner(d, ph, k, n, s.hd); } break;
+    case 1: try { execInner(d, ph, k, 0, s.blk); } catch (int) { execInner(d, ph, k, n, s.hd); } break;
+    case 2: try { execInner(d, ph, k, 0, s.blk); } catch (const Unrelated&) { execInner(d, ph, k, n, s.hd); } break;
+    default: try { execInner(d, ph, k, 0, s.blk); } catch (...) { execInner(d, ph, k, n, s.hd); } break;
+    }
+}
+#endif
+
 static void execPhase(TestDef* d, int ph, unsigned long long run)
 {
     std::vector<Stmt>& v = d->ph[ph];
@@ -159,16 +217,11 @@ static void execPhase(TestDef* d, int ph, unsigned long long run)
         const Base& s = holds(v[k].cond, run) ? v[k].a : v[k].b;
         snprintf(gMsg, sizeof gMsg, "VM%d.%d.%d", d->idx, ph, (int)k);
         switch (s.kind) {
-        case 'n': break;
-        case 'c': UtestShell::getCurrent()->assertTrue(true, "CHECK", "true", NULLPTR, FILES[s.file], s.line); break;
-        case 'x': UtestShell::getCurrent()->fail(gMsg, FILES[s.file], s.line); break;
-        case 'j': FAIL_TEXT_C_LOCATION(gMsg, FILES[s.file], s.line); break;
-        case 'k': doCheckK(s.ck, s.agree, FILES[s.file], s.line); break;
 #if CPPUTEST_HAVE_EXCEPTIONS
-        case 's': throw std::runtime_error("boom");
-        case 'o': throw 42;
+        case 't': execTry(d, ph, (int)k, s); break;
+        case 'w': execThrows(d, ph, (int)k, s); break;
 #endif
-        default: fprintf(stderr, "harness: statement kind %c not available in this build\n", s.kind); exit(3);
+        default: execSimple(d, ph, (int)k, s);
         }
     }
 }
@@ -209,6 +262,67 @@ private:
             if (holds(lines[k].cond, run)) r.addFailure(TestFailure(&t, FILES[2], lines[k].line, "VP"));
     }
 };
+// ---------------------------------------------------------------- tests made by the public macros
+// The scripted test a macro-made Utest stands for is found through the shell that is running (the registry has made it current before
+// createTest()); its run number is taken when the object is created, like ScriptedUtest does.
+static TestDef* currentDef() { return gDefOf[UtestShell::getCurrent()]; }
+static unsigned long long nextRun(TestDef* d) { return gSepRegistry ? (unsigned long long)gSepRegistry->getCurrentRepetition() : d->created++; }
+TEST_GROUP(VerifPlain)
+{
+    TestDef* d_ = currentDef();
+    unsigned long long run_ = nextRun(d_);
+};
+TEST_GROUP(VerifFull)
+{
+    TestDef* d_ = currentDef();
+    unsigned long long run_ = nextRun(d_);
+    TEST_SETUP() { execPhase(d_, 0, run_); }
+    TEST_TEARDOWN() { execPhase(d_, 2, run_); }
+};
+#define MAC_RUN 16
+#define MAC_IGN 8
+#define VT(g, n) TEST(g, n) { execPhase(d_, 1, run_); }
+#define VI(g, n) IGNORE_TEST(g, n) { execPhase(d_, 1, run_); }
+VT(VerifPlain, t0) VT(VerifPlain, t1) VT(VerifPlain, t2) VT(VerifPlain, t3) VT(VerifPlain, t4) VT(VerifPlain, t5) VT(VerifPlain, t6) VT(VerifPlain, t7)
+VT(VerifPlain, t8) VT(VerifPlain, t9) VT(VerifPlain, t10) VT(VerifPlain, t11) VT(VerifPlain, t12) VT(VerifPlain, t13) VT(VerifPlain, t14) VT(VerifPlain, t15)
+VT(VerifFull, t0) VT(VerifFull, t1) VT(VerifFull, t2) VT(VerifFull, t3) VT(VerifFull, t4) VT(VerifFull, t5) VT(VerifFull, t6) VT(VerifFull, t7)
+VT(VerifFull, t8) VT(VerifFull, t9) VT(VerifFull, t10) VT(VerifFull, t11) VT(VerifFull, t12) VT(VerifFull, t13) VT(VerifFull, t14) VT(VerifFull, t15)
+VI(VerifPlain, i0) VI(VerifPlain, i1) VI(VerifPlain, i2) VI(VerifPlain, i3) VI(VerifPlain, i4) VI(VerifPlain, i5) VI(VerifPlain, i6) VI(VerifPlain, i7)
+VI(VerifFull, i0) VI(VerifFull, i1) VI(VerifFull, i2) VI(VerifFull, i3) VI(VerifFull, i4) VI(VerifFull, i5) VI(VerifFull, i6) VI(VerifFull, i7)
+#define ST(g, n) &TEST_##g##_##n##_TestShell_instance
+#define SI(g, n) &IGNORE##g##_##n##_TestShell_instance
+static UtestShell* const MAC_POOL[4][MAC_RUN] = {        // [ignored * 2 + has setup or teardown statements]
+    { ST(VerifPlain, t0), ST(VerifPlain, t1), ST(VerifPlain, t2), ST(VerifPlain, t3), ST(VerifPlain, t4), ST(VerifPlain, t5), ST(VerifPlain, t6), ST(VerifPlain, t7),
+      ST(VerifPlain, t8), ST(VerifPlain, t9), ST(VerifPlain, t10), ST(VerifPlain, t11), ST(VerifPlain, t12), ST(VerifPlain, t13), ST(VerifPlain, t14), ST(VerifPlain, t15) },
+    { ST(VerifFull, t0), ST(VerifFull, t1), ST(VerifFull, t2), ST(VerifFull, t3), ST(VerifFull, t4), ST(VerifFull, t5), ST(VerifFull, t6), ST(VerifFull, t7),
+      ST(VerifFull, t8), ST(VerifFull, t9), ST(VerifFull, t10), ST(VerifFull, t11), ST(VerifFull, t12), ST(VerifFull, t13), ST(VerifFull, t14), ST(VerifFull, t15) },
+    { SI(VerifPlain, i0), SI(VerifPlain, i1), SI(VerifPlain, i2), SI(VerifPlain, i3), SI(VerifPlain, i4), SI(VerifPlain, i5), SI(VerifPlain, i6), SI(VerifPlain, i7) },
+    { SI(VerifFull, i0), SI(VerifFull, i1), SI(VerifFull, i2), SI(VerifFull, i3), SI(VerifFull, i4), SI(VerifFull, i5), SI(VerifFull, i6), SI(VerifFull, i7) } };
+
+#if CPPUTEST_HAVE_EXCEPTIONS
+// CHECK_THROWS reports at __FILE__:__LINE__ of its expansion: one expansion per (file, expected type), at the location the scenario names
+static void execThrows(TestDef* d, int ph, int k, const Base& s)
+{
+    const size_t want = 7000 + 16 * (size_t)s.file + (size_t)s.hk;
+    if (s.hk < 0 || s.hk > 2 || s.line != want) { fprintf(stderr, "harness: CHECK_THROWS at %d:%zu, must be at line %zu\n", s.file, s.line, want); exit(3); }
+    switch (s.file * 3 + s.hk) {
+#line 7000 "tst.cpp"
+    case 0: CHECK_THROWS(std::exception, execInner(d, ph, k, 0, s.blk)); break;
+#line 7001 "tst.cpp"
+    case 1: CHECK_THROWS(int, execInner(d, ph, k, 0, s.blk)); break;
+#line 7002 "tst.cpp"
+    case 2: CHECK_THROWS(Unrelated, execInner(d, ph, k, 0, s.blk)); break;
+#line 7016 "oth.cpp"
+    case 3: CHECK_THROWS(std::exception, execInner(d, ph, k, 0, s.blk)); break;
+#line 7017 "oth.cpp"
+    case 4: CHECK_THROWS(int, execInner(d, ph, k, 0, s.blk)); break;
+#line 7018 "oth.cpp"
+    default: CHECK_THROWS(Unrelated, execInner(d, ph, k, 0, s.blk)); break;
+#line 400 "harness/C01.cpp"
+    }
+}
+#endif
+
 class LoggingOutput : public StringBufferTestOutput {
 public:
     void printBuffer(const char* s) CPPUTEST_OVERRIDE { StringBufferTestOutput::printBuffer(s); logText(s); }
@@ -239,7 +353,8 @@ static void failureRecords(const std::string& txt, std::vector<std::string>& rec
             unsigned long long ti = us == std::string::npos ? 0xffff : strtoull(test.c_str() + us + 1, nullptr, 10);
             // what kind of record: a check of a scripted statement (its text, bare or behind "Message: "; FAIL_C_LOCATION has no text),
             // the plugin's, or (anything else; the wording is not the property's business) an escaped exception's
-            int kind = (msg.compare(0, 2, "VM") == 0 || msg.compare(0, 11, "Message: VM") == 0 || msg.empty()) ? 0
+            // (CHECK_THROWS words its own failure: "expected to throw <type> but threw ...")
+            int kind = (msg.compare(0, 2, "VM") == 0 || msg.compare(0, 11, "Message: VM") == 0 || msg.empty() || msg.compare(0, 18, "expected to throw ") == 0) ? 0
                      : msg.compare(0, 2, "VP") == 0 ? 3 : 1;
             recs.push_back(hx(ti) + " " + hx((unsigned long long)fileId(file)) + " " + hx(line) + " " + hx((unsigned long long)kind));
             test.clear();
@@ -274,8 +389,8 @@ static void parseSummary(const std::string& txt, Out& o)
 }
 static void emitRep(size_t from, size_t to, Out& o, const std::string& counters)
 {
-    std::string txt; size_t nev = 0, na = 0;
-    for (size_t k = from; k < to; k++) { if (gLog[k].kind == 'T') txt += gLog[k].text; else if (gLog[k].kind == 'E') nev++; else na++; }
+    std::string txt; size_t nev = 0, na = 0, nsub = 0;
+    for (size_t k = from; k < to; k++) { if (gLog[k].kind == 'T') txt += gLog[k].text; else if (gLog[k].kind == 'E') nev++; else if (gLog[k].kind == 'U') nsub++; else na++; }
     o << hx(nev);
     for (size_t k = from; k < to; k++) if (gLog[k].kind == 'E') o << hx(gLog[k].a) << hx(gLog[k].b) << hx(gLog[k].c) << hz(gLog[k].d);
     parseFailures(txt, o);
@@ -283,6 +398,8 @@ static void emitRep(size_t from, size_t to, Out& o, const std::string& counters)
     for (size_t k = from; k < to; k++) if (gLog[k].kind == 'A') o << hz(gLog[k].a) << hx(gLog[k].b);
     parseSummary(txt, o);
     o << counters;
+    o << hx(nsub);
+    for (size_t k = from; k < to; k++) if (gLog[k].kind == 'U') o << hx(gLog[k].a) << hx(gLog[k].b) << hx(gLog[k].c) << hx(gLog[k].d);
 }
 
 // ---------------------------------------------------------------- console mode: the bytes that reached descriptor 1
@@ -332,9 +449,31 @@ static Cond readCond(Toks& t)
     if (c.op == '?') { fprintf(stderr, "harness: condition %s\n", op.c_str()); exit(3); }
     return c;
 }
+static Base readBase(const std::string& kind, Toks& t, bool& needExc);
+static void readInner(Toks& t, std::vector<Base>& v, bool& needExc)
+{
+    int n = t.n();
+    for (int k = 0; k < n; k++) {
+        std::string kind = t.sym();
+        if (kind == "t" || kind == "w" || kind == "r") { fprintf(stderr, "harness: statement %s inside a try block\n", kind.c_str()); exit(3); }
+        v.push_back(readBase(kind, t, needExc));
+    }
+}
+static int readHandlerKind(Toks& t, bool all)
+{
+    std::string h = t.sym();
+    int k = h == "std" ? 0 : h == "int" ? 1 : h == "unrel" ? 2 : (h == "all" && all) ? 3 : -1;
+    if (k < 0) { fprintf(stderr, "harness: handler type %s\n", h.c_str()); exit(3); }
+    return k;
+}
 static Base readBase(const std::string& kind, Toks& t, bool& needExc)
 {
-    Base s; s.kind = kind[0]; s.file = 0; s.line = 0; s.ck = 0; s.agree = true;
+    Base s; s.kind = kind[0]; s.file = 0; s.line = 0; s.ck = 0; s.agree = true; s.hk = 0;
+    if (s.kind == 't') { s.hk = readHandlerKind(t, true); readInner(t, s.blk, needExc); readInner(t, s.hd, needExc); needExc = true; return s; }
+    if (s.kind == 'w') {
+        s.hk = readHandlerKind(t, false); s.file = t.n(); s.line = (size_t)t.u(); if (s.file < 0 || s.file > 1) s.file = 1;
+        readInner(t, s.blk, needExc); needExc = true; return s;
+    }
     if (s.kind == 'k') {
         std::string name = t.sym(); s.ck = -1;
         for (int k = 0; k < CK_COUNT; k++) if (name == CKNAMES[k]) s.ck = k;
@@ -382,6 +521,8 @@ int main()
             char b[40]; snprintf(b, sizeof b, "G%d", i / 3); d.group = b;
             snprintf(b, sizeof b, "%s_%d", d.sel ? "sel" : "out", i); d.name = b;
         }
+        bool macros = false;
+        if (!t.end() && t.peek() == ":mac") { t.sym(); macros = true; }
         // console mode
         bool console = false, sep = false, verbose = false, colour = false; int sink = 0; size_t cap = 4096;
         if (!t.end() && t.peek() == ":io") {
@@ -402,8 +543,23 @@ int main()
 
         TestRegistry reg; FailPlugin plugin; reg.installPlugin(&plugin);
         std::vector<UtestShell*> shells(nt);
+        if (macros) {
+            int used[4] = {0, 0, 0, 0}; bool fits = true;
+            for (int i = 0; i < nt && fits; i++) {
+                int cls = (defs[i].ignored ? 2 : 0) + ((defs[i].ph[0].empty() && defs[i].ph[2].empty()) ? 0 : 1);
+                if (used[cls] >= (defs[i].ignored ? MAC_IGN : MAC_RUN)) { fits = false; break; }
+                UtestShell* sh = MAC_POOL[cls][used[cls]++];
+                // a clean shell: what the installer and earlier scenarios have left behind is reset, the labels are this scenario's
+                sh->next_ = NULLPTR; sh->hasFailed_ = false; sh->isRunAsSeperateProcess_ = false;
+                if (defs[i].ignored) static_cast<IgnoredUtestShell*>(sh)->runIgnored_ = false;
+                sh->setGroupName(defs[i].group.c_str()); sh->setTestName(defs[i].name.c_str());
+                sh->setFileName(FILES[0]); sh->setLineNumber(defs[i].line);
+                shells[i] = sh;
+            }
+            if (!fits) { o << "skip"; o.flush(); continue; }
+        }
         for (int i = 0; i < nt; i++) {
-            shells[i] = defs[i].ignored ? (UtestShell*)new ScriptedIgnoredShell(&defs[i]) : (UtestShell*)new ScriptedShell(&defs[i]);
+            if (!macros) shells[i] = defs[i].ignored ? (UtestShell*)new ScriptedIgnoredShell(&defs[i]) : (UtestShell*)new ScriptedShell(&defs[i]);
             gDefOf[shells[i]] = &defs[i];
         }
         for (int i = nt - 1; i >= 0; i--) reg.addTest(shells[i]);
@@ -480,7 +636,7 @@ int main()
                 o << ":io" << (escaped ? "1" : "0") << ret;
                 emitFileItems(bytes, o);
                 o.flush();
-                for (int i = 0; i < nt; i++) delete shells[i];
+                if (!macros) for (int i = 0; i < nt; i++) delete shells[i];
                 continue;
             }
         }
@@ -495,7 +651,7 @@ int main()
         o << (escaped ? "1" : "0") << ret << hx(reps.size());
         for (size_t r = 0; r < reps.size(); r++) emitRep(reps[r].first, reps[r].second, o, counters);
         o.flush();
-        for (int i = 0; i < nt; i++) delete shells[i];
+        if (!macros) for (int i = 0; i < nt; i++) delete shells[i];
     }
     fflush(stdout);
     _exit(0);   // no static destructors: the leak detector's allocators may already be gone when the registry's statics die
